@@ -211,7 +211,7 @@ Definition comb_case (t : ptype) (s : bytes) :=
 (* ---------------- the family of user-written shapes (C14) ---------------- *)
 Inductive fconv := ConvAlways | ConvFail | ConvCustom.
 Inductive ftyrep := TyLower | TyRaw | TyInvalid.
-Inductive fhook := HkNothing | HkFail | HkClearName | HkNs | HkNoVer | HkVer | HkSub | HkEmptyQ | HkQual | HkBadCs | HkCs | HkNameX | HkType2.
+Inductive fhook := HkNothing | HkFail | HkClearName | HkNs | HkNoVer | HkVer | HkSub | HkEmptyQ | HkQual | HkBadCs | HkCs | HkNameX | HkType2 | HkBlankCs | HkClearQ.
 Inductive ferr := FParse (e : parse_error) | FConv | FHook.
 Definition s_custom : bytes := ["c";"u";"s";"t";"o";"m"]%byte.
 Definition B1 (b : byte) : bytes := [b].
@@ -232,6 +232,8 @@ Definition fam_hook1 (tp : bytes * parts) (hk : fhook) : result ferr (bytes * pa
   | HkCs => Ok (setq s_checksum ["B";":";"0";"0";",";"a";":";"F";"F"]%byte)
   | HkNameX => Ok (t, with_name p (p_name p ++ ["X"]%byte))
   | HkType2 => Ok (t ++ ["2"]%byte, p)
+  | HkBlankCs => Ok (setq s_checksum [])
+  | HkClearQ => Ok (t, with_quals p [])
   end.
 Fixpoint fam_hook (hks : list fhook) (tp : bytes * parts) : result ferr (bytes * parts) :=
   match hks with [] => Ok tp | hk :: r => match fam_hook1 tp hk with Ok tp' => fam_hook r tp' | Err e => Err e end end.
